@@ -1,5 +1,5 @@
 """Texts for MANIFEST.json."""
-HOOK_COMMITS = ["3a899bd"]
+HOOK_COMMITS = ["3a899bd", "d84b5a0"]
 
 NOTES = ("All checks: ./check <id> --tier quick|thorough. Technique family: machine-checked proof in Lean 4 over executable models, "
          "tied to the source by a per-run correspondence (see DESIGN.md). Properties listed under not_applicable are not yet "
@@ -9,6 +9,30 @@ _PENDING = "no registered check yet at this commit (model and correspondence und
 NOT_APPLICABLE = {f"C{i:02d}": _PENDING for i in range(1, 21)}
 
 META = {
+    "C13": {
+        "text": ("Lean theorems over the persisted epoch list (newest first, each epoch with the content it recorded): Rollback to a "
+                 "listed epoch followed by Open loads exactly the content recorded with that epoch, nothing newer survives, nothing "
+                 "is invented, an unknown epoch is refused; the rollback points are the persisted epochs and start with what Open "
+                 "would load; the purger never removes a protected or non-eligible epoch; the retention functions protect at most "
+                 "numSnapshotsToKeep snapshots and always the latest. The retention functions are compared with the Go code through "
+                 "a verif export and the whole procedure end to end on real on-disk indexes (every offered point)."),
+        "design_ref": "DESIGN.md section 4, C13",
+        "note": ("trusted: Lean kernel, Go harness, bbolt, zapx. That each persisted epoch records the index content of its moment is the "
+                 "durable-state invariant (C03); in this model it is the content attached to the epoch, and it is what the end-to-end "
+                 "runs check against the replay."),
+        "technique": "Lean 4 proof over persisted-epoch model + I/O-equality on retention functions + end-to-end rollback differential",
+    },
+    "C01": {
+        "text": ("The last-write-wins replay is a Lean function; theorems for every history: Document(id) is what the last operation on "
+                 "id says, splitting the history into batches in any way gives the same state, empty batches change nothing, the live "
+                 "ids are distinct and DocCount is their number, Document answers exactly for the live ids. Every engine configuration "
+                 "(scorch disk/memory/zap v11-v17 with merges and reopen; upsidedown over four KV stores) is compared with the replay "
+                 "on DocCount, Document, match-all, doc-id search and GetInternal after the batches of seeded histories."),
+        "design_ref": "DESIGN.md section 4, C01",
+        "note": ("trusted: Lean kernel, Go harness, segment formats and KV engines. The scorch introducer / upsidedown row algebra are "
+                 "not yet modelled operationally in Lean (DESIGN.md lists the planned refinement); the tie is I/O equality on observables."),
+        "technique": "Lean 4 executable replay + theorems; I/O-equality correspondence over 13 engine configurations",
+    },
     "C02": {
         "text": ("The documented meaning of the whole query family is a Lean function (`Query.eval`, structural recursion); theorems: "
                  "the answer set is exact and duplicate free, Total is its size, and the algebraic identities behind every "
